@@ -12,6 +12,9 @@ T = core.TMODULE
 
 
 def check(ctx):
+    from . import core8
+
+    core8.body_flag_defaults(ctx, "C01", flags=("nonexclusive",))
     core3.tmodule_control_table(ctx, "C01", want_enter=True, want_mirror=False)
     core3.ctrl_path_builder(ctx, "C01")
     core3.exclusive_with(ctx, "C01")
